@@ -8,6 +8,7 @@
  * always the backbone uid), in lock-step with a (uid, euid) model that has exactly the rules of the property;
  * every valid_seteuid / creator_file apply must be in the master's log with the right arguments. */
 #include "hx.h"
+#include <ctype.h>
 #include "lib/efuns/uids.h"
 
 #define NACT 4
@@ -32,7 +33,7 @@ static int act[NACT + 1];       /* world index of each actor, -1 = free slot; ac
 static int nloaded[NCRE];       /* how many of b..g were loaded */
 static int bp_a[NCRE];          /* world index of blueprint /<dir>/a, -1 if not loaded */
 static object_t *READER;
-static int depth, selftest, pol_vs, pol_cf, base_objs;
+static int depth, selftest, pol_vs, pol_cf, base_objs, master_nv;
 
 enum { C_HIST, C_CREATED, C_REFUSED_CREATE, C_SETEUID_OK, C_SETEUID_REFUSED, C_EXPORT_OK, C_EXPORT_REFUSED, C_EXPORT_ERR, C_BACKBONE, C_MASTER_APPLIES };
 
@@ -51,6 +52,8 @@ static const char *model_creator (const char *name /* no leading slash */) {
   switch (pol_cf) {
   case 1: case 2: return "NONAME";       /* 0 / non-string: the driver falls back to NONAME */
   case 3: return "BB";
+  case 4: return "root";
+  case 5: return "NONAME";               /* no creator_file() in the master: the driver falls back to NONAME */
   }
   if (!strncmp (name, "w1/", 3)) return "w1";
   if (!strncmp (name, "w2/", 3)) return "w2";
@@ -153,11 +156,11 @@ static void check_world (const char *when, int all) {
 /* model of give_uid_to_object() for an object `name` created on behalf of loader L (never NULL here) */
 static void model_give_uid (wobj *L, const char *name, const char **uid, const char **euid) {
   const char *c = model_creator (name);
-  expect ("creator_file(/%s)", name);
+  if (pol_cf != 5) expect ("creator_file(/%s)", name);
   if (!strcmp (L->uid, c)) { *uid = c; *euid = ""; return; }          /* same creator as the loader */
   /* backbone-trusted: inherits the loader's euid as uid and euid.  A loader without euid (only the master can get
      here) has nothing to hand down: the object then gets what creator_file said, like any untrusted object */
-  if (!strcmp (c, "BB") && L->euid[0]) { *uid = L->euid; *euid = L->euid; vx_count (C_BACKBONE, 1); return; }
+  if (!strcmp (c, "BB") && L->euid[0] && master_nv != 2) {      /* a master without get_bb_uid(): nobody is backbone-trusted */ *uid = L->euid; *euid = L->euid; vx_count (C_BACKBONE, 1); return; }
   *uid = c; *euid = "";
 }
 
@@ -224,6 +227,13 @@ static void op_seteuid (int xa, int v) {
   case 1: n = x->uid; break;                                            /* own uid */
   case 2: n = !strcmp (x->uid, "w1") ? "w2" : "w1"; break;              /* somebody else's */
   case 3: n = "Root"; if (!strcmp (x->uid, "Root")) vx_child_exit (0); break;   /* same as "own" */
+  case 4: {                                                               /* own uid with the case of every letter flipped */
+    static char flip[16]; int k = 0;
+    for (const char *q = x->uid; *q && k < 15; q++) flip[k++] = (char) (isupper ((unsigned char) *q) ? tolower ((unsigned char) *q) : toupper ((unsigned char) *q));
+    flip[k] = 0; n = flip; if (!strcmp (flip, x->uid)) vx_child_exit (0); break;
+  }
+  case 5: n = "root"; break;                                            /* the root uid in lower case */
+  case 6: { static char pre[2]; pre[0] = x->uid[0]; pre[1] = 0; n = pre; break; }   /* a proper prefix of the own uid */
   }
   snprintf (desc, sizeof desc, "%s(uid %s euid %s) seteuid(%s)", x->name, x->uid, x->euid[0] ? x->euid : "0", n ? n : "0");
   vx_obs ("%s", desc);
@@ -273,7 +283,6 @@ static void op_export (int xa, int ya) {
 static int cmp_desc (const void *a, const void *b) { return strcmp ((const char *) a, (const char *) b); }
 /* actors A0..A3 are interchangeable (every op is offered for every actor, the oracle does not depend on the slot):
    their descriptors are sorted, so that states equal up to a permutation of the slots merge */
-static int master_nv;
 static int canon (char *b, int len, int step) {
   char d[NACT][48];
   int n = snprintf (b, len, "s%d p%d%d|", step, pol_vs, pol_cf);
@@ -292,12 +301,22 @@ static int canon (char *b, int len, int step) {
 static void body (void) {
   char cb[400];
   int cfg = (int) vx_opt_long ("cfg", -1);
-  if (cfg < 0) cfg = vx_choose_free ((int) vx_opt_long ("ncfg", 14), "policy");
+  if (cfg < 0) {
+    const char *lst = vx_opt ("cfgs", 0);        /* --cfgs=a,b,c: explicit list of policy codes */
+    if (lst) {
+      int v[16], n = 0;
+      for (const char *q = lst; *q && n < 16; ) { v[n++] = (int) strtol (q, (char **) &q, 10); if (*q == ',') q++; }
+      cfg = v[vx_choose_free (n, "policy")];
+    } else cfg = vx_choose_free ((int) vx_opt_long ("ncfg", 15), "policy");
+  }
   /* order: creator_file by-directory, always-BB, returns 0, returns a non-string; each x valid_seteuid own / approve / refuse */
   /* 12, 13: valid_seteuid raises an error for every request / own-uid-only but raises for "Root" (creator_file by-directory) */
   { static const int cf_order[4] = { 0, 3, 1, 2 }, vs_order[3] = { 2, 1, 0 };
-    if (cfg >= 12) { pol_vs = cfg == 12 ? 3 : 4; pol_cf = 0; } else { pol_vs = vs_order[cfg % 3]; pol_cf = cf_order[cfg / 3]; } }
-  if (master_nv) pol_vs = 5;        /* the master does not define valid_seteuid() at all */
+    if (cfg >= 14) { pol_vs = 1; pol_cf = 0; } else if (cfg >= 12) { pol_vs = cfg == 12 ? 3 : 4; pol_cf = 0; } else { pol_vs = vs_order[cfg % 3]; pol_cf = cf_order[cfg / 3]; } }
+  /* masters that do not define one apply at all: 1 valid_seteuid, 2 get_bb_uid, 3 creator_file (4 get_root_uid: see main) */
+  if (master_nv == 1) pol_vs = 5;
+  if (master_nv == 3) pol_cf = 5;
+  if (cfg == 14) { pol_vs = 1; pol_cf = 4; }       /* creator_file always answers "root" (a name that differs from the root uid only in case) */
   /* initial actors are loaded by the driver itself (no current object): uid = creator, euid 0 */
   set_policy_n ("log_uid", 1);
   if (pol_vs == 2) set_policy_s ("valid_seteuid", "own");
@@ -307,20 +326,21 @@ static void body (void) {
   if (pol_cf == 1) set_policy_n ("creator_file_ret", 0);
   else if (pol_cf == 2) { push_constant_string ("creator_file_ret"); push_refed_array (allocate_array (0)); hx_apply (master_ob, "set_policy", 2); }
   else if (pol_cf == 3) set_policy_s ("creator_file_ret", "BB");
+  else if (pol_cf == 4) set_policy_s ("creator_file_ret", "root");
   static const int init_cre[2] = { 2, 3 };
   for (int i = 0; i < 2; i++) {
     char f[32]; snprintf (f, sizeof f, "/%s/a", cre_dir[init_cre[i]]);
     object_t *o = hx_load (f, 0);
     if (!o) { fail_hist ("C20:harness-lpc", "cannot load %s: %s", f, hx_last_error); return; }
     int wi = add_world (o, model_creator (f + 1), "", init_cre[i], 0);
-    expect ("creator_file(%s)", f);
+    if (pol_cf != 5) expect ("creator_file(%s)", f);
     bp_a[init_cre[i]] = wi;
     act[i] = wi;
   }
   check_master_log ("initial loads");
   first_new = 0; check_world ("after initial loads", 1);
   vx_obs ("policy: valid_seteuid=%s creator_file=%s", pol_vs == 0 ? "refuse" : pol_vs == 1 ? "approve" : pol_vs == 2 ? "own-uid-only" : pol_vs == 3 ? "raises an error" : pol_vs == 4 ? "own-uid-only, raises for Root" : "not defined in the master",
-          pol_cf == 0 ? "by-directory" : pol_cf == 1 ? "returns 0" : pol_cf == 2 ? "returns an array" : "always BB");
+          pol_cf == 0 ? "by-directory" : pol_cf == 1 ? "returns 0" : pol_cf == 2 ? "returns an array" : pol_cf == 3 ? "always BB" : pol_cf == 4 ? "always \"root\"" : "not defined in the master");
 
   for (int step = 0; step < depth; step++) {
     vx_state (cb, (size_t) canon (cb, sizeof cb, step));
@@ -334,8 +354,9 @@ static void body (void) {
           if (kind != K_CLONE && nloaded[c] >= (int) strlen (load_files)) continue;
           ops[nops].xa = xa; ops[nops].k = kind; ops[nops++].a = c;
         }
-      for (int v = 0; v < 4; v++) {
+      for (int v = 0; v < 7; v++) {
         if (v == 3 && !strcmp (W[act[xa]].uid, "Root")) continue;       /* same as "own uid" */
+        if (v >= 4 && pol_vs != 1) continue;                              /* case/prefix variants: refused like any foreign uid unless the master approves everything */
         ops[nops].xa = xa; ops[nops].k = 10; ops[nops++].a = v;
       }
       for (int ya = 0; ya <= NACT; ya++) {
@@ -356,7 +377,8 @@ static void body (void) {
   vx_count (C_HIST, 1);
 }
 
-static void patch (void) { CONFIG_STR (__MASTER_FILE__) = master_nv ? "/c20/master_nv.c" : "/c20/master.c"; }
+static char master_file[40] = "/c20/master.c";
+static void patch (void) { if (master_nv) snprintf (master_file, sizeof master_file, "/c20/master_nv%d.c", master_nv); CONFIG_STR (__MASTER_FILE__) = master_file; }
 
 int main (int argc, char **argv) {
   char mud[PATH_MAX];
@@ -385,8 +407,9 @@ int main (int argc, char **argv) {
   for (int c = 0; c < NCRE; c++) bp_a[c] = -1;
   base_objs = count_objects ();
   /* the master is an actor too */
-  if (!master_ob->uid || !master_ob->euid) { fprintf (stderr, "master has no uid/euid\n"); return 2; }
-  act[MASTER] = add_world (master_ob, master_ob->uid->name, master_ob->euid->name, 0, 0);
+  if (!master_ob->uid) { fprintf (stderr, "master has no uid\n"); return 2; }
+  /* (a master without get_root_uid() keeps the uid NONAME and euid 0 it was loaded with) */
+  act[MASTER] = add_world (master_ob, master_ob->uid->name, master_ob->euid ? master_ob->euid->name : "", 0, 0);
   base_objs--;                  /* the master is counted in the world */
   return vx_run (argc, argv, body);
 }
